@@ -1048,6 +1048,19 @@ pub fn c18(args: &Args) -> i32 {
         Tree::bin(k(">"), Tree::bin(o.mul, v("x"), v("x")), v("y")),
         Tree::bin(k("<="), Tree::un(k("sin"), v("x")), l("0.5")),
     ];
+    let (mut fs, mut cs) = (fs, cs);
+    if !quick {
+        fs.extend(vec![
+            Tree::bin(o.mul, Tree::bin(o.mul, v("x"), v("x")), v("y")),
+            Tree::un(k("ln"), v("x")),
+            Tree::bin(o.div, l("1"), v("x")),
+            Tree::bin(o.sub, v("x"), v("y")),
+        ]);
+        cs.extend(vec![
+            Tree::bin(k("<"), v("x"), Tree::bin(o.mul, v("y"), l("2"))),
+            Tree::bin(k(">="), v("y"), Tree::bin(o.add, v("x"), l("1"))),
+        ]);
+    }
     let pw = |f: &Tree, c: &Tree, g: &Tree| Tree::bin(kelse, Tree::bin(kif, f.clone(), c.clone()), g.clone());
     let mut pool: Vec<Tree> = vec![];
     let mut ctr = args.seed();
@@ -1055,22 +1068,25 @@ pub fn c18(args: &Args) -> i32 {
         for c in &cs {
             for g in &fs {
                 ctr += 1;
-                if quick && ctr % 2 != 0 {
-                    continue;
-                }
                 let p = pw(f, c, g);
                 pool.push(p.clone());
-                if ctr % 3 == 0 {
+                if !quick || ctr % 3 == 0 {
                     // the condition as its own parenthesised group
                     pool.push(pw(f, &Tree::paren(c.clone()), g));
                 }
-                match ctr % 6 {
-                    0 => pool.push(Tree::bin(o.mul, Tree::paren(p.clone()), v("y"))),
-                    1 => pool.push(Tree::un(k("sin"), p.clone())),
-                    2 => pool.push(Tree::bin(o.add, v("x"), Tree::paren(p.clone()))),
-                    3 => pool.push(pw(f, c, &Tree::paren(pw(g, &cs[(ctr as usize) % cs.len()], f)))),
-                    4 => pool.push(Tree::bin(o.sub, Tree::paren(p.clone()), Tree::paren(pw(g, &cs[(ctr as usize + 1) % cs.len()], f)))),
-                    _ => pool.push(pw(&Tree::paren(pw(f, &cs[(ctr as usize + 2) % cs.len()], g)), c, g)),
+                // quick: one embedding per triple (rotating); thorough: all six
+                for variant in 0..6u64 {
+                    if quick && ctr % 6 != variant {
+                        continue;
+                    }
+                    match variant {
+                        0 => pool.push(Tree::bin(o.mul, Tree::paren(p.clone()), v("y"))),
+                        1 => pool.push(Tree::un(k("sin"), p.clone())),
+                        2 => pool.push(Tree::bin(o.add, v("x"), Tree::paren(p.clone()))),
+                        3 => pool.push(pw(f, c, &Tree::paren(pw(g, &cs[(ctr as usize) % cs.len()], f)))),
+                        4 => pool.push(Tree::bin(o.sub, Tree::paren(p.clone()), Tree::paren(pw(g, &cs[(ctr as usize + 1) % cs.len()], f)))),
+                        _ => pool.push(pw(&Tree::paren(pw(f, &cs[(ctr as usize + 2) % cs.len()], g)), c, g)),
+                    }
                 }
             }
         }
@@ -1080,7 +1096,7 @@ pub fn c18(args: &Args) -> i32 {
     let tab1 = tab.clone();
     let (o1, w1) = par_calc(args, &tab, true, &pool, &move |t: &Tree, _i, out| check_derivative(&tab1, t, 1, &[Form::Flat, Form::Deep], out, 48));
     // second order incl. mixed partials: the condition of a first derivative is its own sub-expression
-    let pool2: Vec<Tree> = pool.iter().step_by(if quick { 5 } else { 2 }).cloned().collect();
+    let pool2: Vec<Tree> = pool.iter().step_by(if quick { 2 } else { 1 }).cloned().collect();
     let tab2 = tab.clone();
     let (o2, w2) = par_calc(args, &tab, true, &pool2, &move |t: &Tree, _i, out| check_derivative(&tab2, t, 2, &[Form::Flat, Form::Deep], out, 48));
     let _ = std::panic::take_hook();
@@ -1090,7 +1106,7 @@ pub fn c18(args: &Args) -> i32 {
     }));
     let p1 = to_part("piecewise", o1, w1, json!({
         "table": "metadata of the real ValOpsFactory::<i32,f64>::make() transplanted to T = Sym",
-        "pool": format!("{} expressions: `f if c else g` for 8 branch expressions x 6 comparison conditions (quick: every 2nd), each also inside arithmetic, under sin, with a nested piecewise branch, as difference of two piecewise terms, with a piecewise first branch", pool.len()),
+        "pool": format!("{} expressions: `f if c else g` for 8 (thorough: 12) branch expressions x 6 (8) comparison conditions x 8 (12) branch expressions, each also (quick: one of the six per triple, rotating; thorough: all) inside arithmetic, under sin, with a nested piecewise branch, as difference of two piecewise terms, with a piecewise first branch", pool.len()),
         "interpretation": "`a if c` = ite(c != 0, a, none), `r else b` = ite(r = none, b, r), comparisons = ite(.., 1, 0) over the reals; none is a constant different from every branch value",
         "reference": "dual numbers; comparisons keep their value, if/else differentiate per operand, so the reference derivative is ite(c, f', g')",
         "forms": ["flat", "deep"],
@@ -1409,6 +1425,23 @@ pub fn c10(args: &Args) -> i32 {
         Tree::bin(o.mul, Tree::bin(o.mul, v("c"), v("d")), v("f")),
         Tree::bin(o.sub, Tree::bin(o.mul, v("b"), v("c")), v("g")),
     ];
+    let mut pool = pool;
+    if !quick {
+        pool.extend(vec![
+            v("y"),
+            Tree::bin(o.mul, v("x"), v("y")),
+            Tree::bin(o.sub, v("y"), v("x")),
+            Tree::bin(o.mul, Tree::un(k("cos"), v("x")), v("z")),
+            Tree::bin(o.pow, Tree::bin(o.add, v("x"), l("1")), l("2")),
+            l("2"),
+            l("0.5"),
+            Tree::bin(o.div, v("x"), Tree::bin(o.add, v("y"), l("1"))),
+            Tree::un(k("sqrt"), v("a")),
+            Tree::bin(o.mul, l("0"), v("x")),
+            Tree::bin(o.add, Tree::bin(o.mul, v("a"), v("b")), v("x")),
+            Tree::un(k("-"), Tree::un(k("-"), v("x"))),
+        ]);
+    }
     let texts: Vec<String> = pool.iter().map(|t| render(t, &Style::default())).collect();
     let unary_names: Vec<&'static str> = if quick { vec!["sin", "-", "exp", "abs"] } else { vec!["sin", "-", "exp", "abs", "cos", "ln", "sqrt", "+", "tanh", "floor"] };
     let binary_names: Vec<&'static str> = vec!["+", "-", "*", "/", "^", "atan2", "min"];
@@ -1438,10 +1471,10 @@ pub fn c10(args: &Args) -> i32 {
             items.push((i, vec![s1.clone()]));
             for s2 in &steps {
                 ctr += 1;
-                if ctr % (if quick { 23 } else { 3 }) == 0 {
+                if ctr % (if quick { 3 } else { 1 }) == 0 {
                     items.push((i, vec![s1.clone(), s2.clone()]));
                 }
-                if ctr % (if quick { 997 } else { 101 }) == 0 {
+                if ctr % (if quick { 101 } else { 7 }) == 0 {
                     // three-step histories through the unary steps (chains of unary operators, double negation, ...)
                     for s3 in steps.iter().filter(|s| matches!(s, Step::Unary(_) | Step::Helper(_) | Step::Overloaded("neg", _))) {
                         items.push((i, vec![s1.clone(), s2.clone(), s3.clone()]));
@@ -1657,7 +1690,7 @@ pub fn c10(args: &Args) -> i32 {
     sym::set_exact_lits(false);
     let _ = std::panic::take_hook();
     let p1 = to_part("histories-exact-literals", o1, w1, json!({
-        "pool": texts, "histories": format!("{n_items}: every (start expression, step) plus every {}th (start, step, step) plus sampled (start, step, step, unary step); steps = operate_unary {:?}, named helpers sin cos exp ln sqrt abs tanh, operate_binary {:?} with every pool element, overloaded + - * / pow with every pool element, neg", if quick { 23 } else { 3 }, unary_names, binary_names),
+        "pool": texts, "histories": format!("{n_items}: every (start expression, step) plus every {}th (start, step, step) plus sampled (every 101st / 7th pair) (start, step, step, unary step); steps = operate_unary {:?}, named helpers sin cos exp ln sqrt abs tanh, operate_binary {:?} with every pool element, overloaded + - * / pow with every pool element, neg", if quick { 3 } else { 1 }, unary_names, binary_names),
         "forms": ["DeepEx (operate_*, helpers, overloaded operators)", "FlatEx (Calculate::operate_*; overloaded steps through to_deepex/from_deepex)"],
         "check": "var_names == sorted union; value == operator applied to operand values under the domain of the unsimplified form (solver, NRA); printed result parses back (C12)",
     }));
